@@ -37,6 +37,14 @@ def base_cfg(binary, rng=None, max_joins=None, password=None, default_modes=(), 
     return scfg, mcfg
 
 
+COMMON_VARIANTS = [
+    {"max_joins": 1}, {"max_joins": 2}, {"max_joins": 3}, {"default_modes": "i"}, {"default_modes": "w"},
+    {"default_modes": "O"}, {"default_modes": "iw"}, {"default_modes": "o"}, {"reg_users": ["cy", "rt", "bob"]},
+    {"default_modes": "r", "reg_users": ["al"]}, {"preconf": False}, {"max_joins": 2, "default_modes": "i"},
+    {"oper_masks": {"adm": "a*!*@*", "root": "*!~r?@*"}},
+]
+
+
 def c16_variant(rng):
     """random configuration of 0-3 predefined channels with random subsets of attributes"""
     chans = []
@@ -74,6 +82,10 @@ def run_episode(args):
     variants = profile.get("cfg_variants") or [{}]
     if variants == "c16":
         var = c16_variant(rng)
+    elif profile.get("common_variants", True) and rng.random() < 0.2:
+        # a fifth of the episodes of every profile run under a configuration from the common pool: what depends on a
+        # setting (quota, default modes, predefined users, no predefined channel) is met by every property's workload
+        var = dict(rng.choice(COMMON_VARIANTS))
     else:
         var = dict(rng.choice(variants))
     res["variant_id"] = repr(sorted((k, repr(v)) for k, v in var.items()))
